@@ -39,6 +39,11 @@ pub enum EOp {
     /// cold_tier().ids_for_metadata_filter, index path / scan fallback (what filtered search uses)
     FilterIds(u32),
     FilterIdsScan,
+    /// one cycle of the background predictor training (body of training_task::spawn_training_task's
+    /// loop on the real logger / strategy / predictor objects; learned worlds only)
+    TrainCycle,
+    /// log_served_search_accesses (what the Search RPC calls after answering)
+    LogServed,
 }
 
 impl EOp {
@@ -67,6 +72,8 @@ impl EOp {
             EOp::ClosureDel(w) => format!("batch_delete_by_filter(closure w={w})"),
             EOp::FilterIds(w) => format!("ids_for_metadata_filter(w={w})"),
             EOp::FilterIdsScan => "ids_for_metadata_filter(uncompilable)".into(),
+            EOp::TrainCycle => "training_cycle".into(),
+            EOp::LogServed => "log_served_search_accesses".into(),
         }
     }
     pub fn kind(&self) -> &'static str {
@@ -94,10 +101,16 @@ impl EOp {
             EOp::ClosureDel(..) => "batch_delete_by_closure",
             EOp::FilterIds(..) => "ids_for_metadata_filter",
             EOp::FilterIdsScan => "ids_for_metadata_filter_scan",
+            EOp::TrainCycle => "training_cycle",
+            EOp::LogServed => "log_served",
         }
     }
     pub fn needs_persistence(&self) -> bool {
         matches!(self, EOp::Snapshot)
+    }
+    /// operations that only make sense on the learned strategy with an access logger attached
+    pub fn wants_learned(&self) -> bool {
+        matches!(self, EOp::Lifecycle | EOp::TrainCycle | EOp::LogServed)
     }
 }
 
@@ -202,6 +215,17 @@ pub fn run_op(te: &TieredEngine, op: &EOp) -> Obs {
             let _ = te.cache_size();
             Obs::Other
         }
+        EOp::LogServed => {
+            let _ = te.log_served_search_accesses(&[1, 2]);
+            Obs::Other
+        }
+        EOp::TrainCycle => {
+            let ctx = TRAIN_CTX.lock().unwrap().clone();
+            if let Some((logger, ls)) = ctx {
+                train_cycle(&logger, &ls);
+            }
+            Obs::Other
+        }
         EOp::FilterDel(w) => {
             use kyrodb_engine::proto::{metadata_filter::FilterType, ExactMatch, MetadataFilter};
             let f = MetadataFilter { filter_type: Some(FilterType::Exact(ExactMatch { key: "w".into(), value: w.to_string() })) };
@@ -261,6 +285,35 @@ pub enum Init {
 
 pub const INITS: [Init; 4] = [Init::Absent, Init::ColdOnly, Init::Cached, Init::Hot];
 
+pub type TrainCtx = (Arc<parking_lot::RwLock<kyrodb_engine::access_logger::AccessPatternLogger>>, Arc<kyrodb_engine::cache_strategy::LearnedCacheStrategy>);
+/// logger + learned strategy of the world built last (executions are sequential within a process;
+/// a std mutex, i.e. not a scheduling point, and never held across one)
+pub static TRAIN_CTX: std::sync::Mutex<Option<TrainCtx>> = std::sync::Mutex::new(None);
+
+/// The body of the training task's loop (training_task.rs: fetch the recent window under the
+/// logger's read lock, read the current target under the predictor's read lock, train a new
+/// predictor off-lock, swap it in with update_predictor) on the real objects.
+pub fn train_cycle(logger: &parking_lot::RwLock<kyrodb_engine::access_logger::AccessPatternLogger>, ls: &kyrodb_engine::cache_strategy::LearnedCacheStrategy) {
+    let events = {
+        let l = logger.read();
+        l.get_recent_window(Duration::from_secs(3600))
+    };
+    if events.is_empty() {
+        ls.record_training_skip();
+        return;
+    }
+    let current_target = {
+        let p = ls.predictor.read();
+        p.target_hot_entries()
+    };
+    if let Ok(mut p) = kyrodb_engine::learned_cache::LearnedCachePredictor::new(4) {
+        p.set_target_hot_entries(current_target);
+        if p.train_from_accesses(&events).is_ok() {
+            ls.update_predictor(p);
+        }
+    }
+}
+
 pub struct World {
     pub te: Arc<TieredEngine>,
     pub strategy: Arc<dyn CacheStrategy>,
@@ -270,11 +323,14 @@ pub struct World {
 
 /// Build a fresh engine in initial state `init` (ids 1 and 2 written with w = 100+id when present).
 pub fn build(init: Init, persistent: bool, learned: bool) -> World {
+    let mut learned_strategy = None;
     let strategy: Arc<dyn CacheStrategy> = if learned {
-        Arc::new(kyrodb_engine::cache_strategy::LearnedCacheStrategy::new(
+        let ls = Arc::new(kyrodb_engine::cache_strategy::LearnedCacheStrategy::new(
             4,
             kyrodb_engine::learned_cache::LearnedCachePredictor::new(4).expect("predictor"),
-        ))
+        ));
+        learned_strategy = Some(ls.clone());
+        ls
     } else {
         Arc::new(LruCacheStrategy::new(4))
     };
@@ -294,7 +350,18 @@ pub fn build(init: Init, persistent: bool, learned: bool) -> World {
         fsync_policy: kyrodb_engine::persistence::FsyncPolicy::Never,
         ..TieredEngineConfig::default()
     };
-    let te = Arc::new(TieredEngine::new_with_shared_strategy(strategy.clone(), qcache.clone(), vec![], vec![], cfg).expect("engine"));
+    let mut te = TieredEngine::new_with_shared_strategy(strategy.clone(), qcache.clone(), vec![], vec![], cfg).expect("engine");
+    // the production wiring of the learned strategy: an access logger shared with the training task
+    if let Some(ls) = learned_strategy {
+        let logger = Arc::new(parking_lot::RwLock::new(kyrodb_engine::access_logger::AccessPatternLogger::new(64)));
+        logger.write().log_doc_access(1);
+        logger.write().log_doc_access(2);
+        te.set_access_logger(logger.clone());
+        *TRAIN_CTX.lock().unwrap() = Some((logger, ls));
+    } else {
+        *TRAIN_CTX.lock().unwrap() = None;
+    }
+    let te = Arc::new(te);
     match init {
         Init::Absent => {}
         Init::Hot => {
